@@ -32,6 +32,8 @@ def write(prop, tier, seed, coverage, wall_s, violations, assumptions=()):
         'violations': int(violations),
     }
     path = os.path.join(VERIF, 'evidence', prop + '.json')
+    if os.environ.get('VERIF_NO_EVIDENCE'):      # runs against scratch copies (seeded changes)
+        path = os.path.join('/var/tmp', 'evidence_scratch_%s.json' % prop)
     os.makedirs(os.path.dirname(path), exist_ok=True)
     tmp = path + '.tmp'
     with open(tmp, 'w') as f:
